@@ -320,3 +320,16 @@ def run(repo: Repo, rep: Report) -> None:  # noqa: F811
                "escapes are processed" if acts else "PN_LOCAL accepts backslash escapes but nothing removes them: `PREFIX p: <http://e/> ... p:a\\\\.b` denotes <http://e/a\\\\.b> (with the backslash) instead of <http://e/a.b>", node=acts[0] if acts else pm.tree)
     else:
         rep.ob("C15.h-pn-local-escapes-are-removed", pm, "<grammar>", "PN_LOCAL does not accept escapes", True, "nothing to unescape", node=pm.tree)
+
+
+_run_before_borrow = run
+
+
+def run(repo: Repo, rep: Report) -> None:  # noqa: F811
+    _run_before_borrow(repo, rep)
+    from vlib.core import borrow
+
+    borrow(repo, rep, "C15", "C18", ('C18.g', 'C18.j'))
+    borrow(repo, rep, "C15", "C11", ('C11.c2',))
+    borrow(repo, rep, "C15", "C01", ('C01.a', 'C01.b'))
+    borrow(repo, rep, "C15", "C02", ('C02.a',))
